@@ -156,8 +156,10 @@ def check_restore(item):
                 res['inconclusive'].append(name); return
             if r == 'sat':
                 rv = [mod.eval(bv(x), model_completion=True).as_long() for x in regs]
+                ev = lambda x: mod.eval(bv(x), model_completion=True).as_long()
+                trv = dict(border=ev(tr.border), outfe=ev(tr.outfe), outfffd=ev(tr.outfffd), ay=[ev(a) for a in tr.ay], o7ffd=ev(o7) if o7 is not None else 0)
                 for w_ in dict.fromkeys(which):
-                    res['violations'].append(dict(key='%s:%s' % (name, w_), text='%s: %s is not restored (registers %r)' % (name, w_, rv), case=dict(kind='restore', fmt=fmt, machine=machine, regs=rv, what=w_)))
+                    res['violations'].append(dict(key='%s:%s' % (name, w_), text='%s: %s is not restored (registers %r, hardware %r)' % (name, w_, rv, trv), case=dict(kind='restore', fmt=fmt, machine=machine, regs=rv, what=w_, hw=trv)))
                 ok = False
             else:
                 res['discharged'] += 1
@@ -191,14 +193,15 @@ def replay(case):
         return False, 'no input'
     fmt, machine = case['fmt'], case['machine']
     regs = list(case['regs'])
+    hw = case.get('hw') or dict(border=3, outfe=0x18, outfffd=5, ay=list(range(16)), o7ffd=0)
     if machine == '48K':
         memory = [0] * 65536
     else:
-        memory = pt.Memory(out7ffd=0, machine=machine)
+        memory = pt.Memory(out7ffd=hw['o7ffd'], machine=machine)
     sim = sm.Simulator(memory)
     sim.registers[:] = regs
     tr = FakeTracer()
-    tr.border, tr.outfe, tr.outfffd, tr.ay = 3, 0x18, 5, list(range(16))
+    tr.border, tr.outfe, tr.outfffd, tr.ay = hw['border'], hw['outfe'], hw['outfffd'], list(hw['ay'])
     sim.tracer = tr
     d = tempfile.mkdtemp(prefix='skverif_c10_')
     try:
@@ -215,6 +218,10 @@ def replay(case):
                 bad.append('%s saved %d restored %d' % (sh.REG_NAMES[i], regs[i], sim2.registers[i]))
         if back.border != tr.border:
             bad.append('border')
+        if fmt == 'szx' and back.outfe != tr.outfe:
+            bad.append('last OUT to 0xFE saved %d restored %d' % (tr.outfe, back.outfe))
+        if machine != '48K' and back.out7ffd != hw['o7ffd']:
+            bad.append('0x7FFD')
         if machine != '48K' and (list(back.ay) != tr.ay or back.outfffd != tr.outfffd):
             bad.append('AY state')
         return bool(bad), '; '.join(bad) or 'state restored exactly'
